@@ -40,6 +40,7 @@ import (
 	"github.com/99designs/gqlgen/graphql/handler/transport"
 	"github.com/vektah/gqlparser/v2/ast"
 	"github.com/vektah/gqlparser/v2/gqlerror"
+	"github.com/vektah/gqlparser/v2/validator"
 
 	"verif/internal/ev"
 	"verif/internal/sjson"
@@ -525,6 +526,18 @@ func pick(seed int64, key string) uint64 {
 	h := fnv.New64a()
 	fmt.Fprintf(h, "%d|%s", seed, key)
 	return h.Sum64()
+}
+
+func init() {
+	// an application-defined validation rule: selections aliased zzforbidden are not allowed
+	validator.AddRule("VerifNoForbiddenAlias", func(observers *validator.Events, addError validator.AddErrFunc) {
+		observers.OnField(func(walker *validator.Walker, field *ast.Field) {
+			if field.Alias == "zzforbidden" {
+				addError(validator.Message("alias zzforbidden is not allowed"), validator.At(field.Position),
+					func(err *gqlerror.Error) { err.Extensions = map[string]any{"code": "VERIF_FORBIDDEN_ALIAS"} })
+			}
+		})
+	})
 }
 
 func main() {
